@@ -935,6 +935,58 @@ def ob_model_history(law, dim):
     return Verdict(DISCHARGED, backend="native run of the real law classes, every sequence of length <= 3 over the alphabet", sub=n, detail=f"{len(seqs)} histories")
 
 
+def ob_restore_after_scheme_switch(sim):
+    """an iteration saved under one time scheme is restored after the time scheme was switched (and the other way round): no exception, the stored fields come back,
+    fields the iteration does not hold are zero (what a simulation built directly in the final configuration and given the stored state would have)."""
+    import contextlib, io
+    from .C15 import _mk, _bc
+    from EasyFEA.FEM import Field, BiLinearForm
+    from EasyFEA import Models, Simulations
+
+    def build():
+        if sim == "WeakForms":
+            mesh = patches.two_element_mesh("QUAD4")
+            s_ = Simulations.WeakForms(mesh, Models.WeakForms(Field(mesh.groupElem, 1), BiLinearForm(lambda u, v: u.grad.dot(v.grad)), computeC=BiLinearForm(lambda u, v: u.dot(v)),
+                                                                  computeM=BiLinearForm(lambda u, v: u.dot(v))))
+            co = np.asarray(mesh.coord)
+            s_.add_dirichlet(np.where(np.isclose(co[:, 0], co[:, 0].min()))[0], [1.0], ["u"])
+            return s_
+        s_ = _mk(sim)
+        _bc(s_, sim, 1)
+        return s_
+    schemes = {"WeakForms": ["parabolic", "hyperbolic", "elliptic"], "Elastic": ["elliptic", "hyperbolic"], "Beam": ["elliptic", "hyperbolic"], "HyperElastic": ["elliptic", "hyperbolic"]}[sim]
+
+    def setscheme(s_, name):
+        if name == "parabolic":
+            s_.Solver_Set_Parabolic_Algorithm(0.1)
+        elif name == "hyperbolic":
+            s_.Solver_Set_Hyperbolic_Algorithm(0.1)
+        else:
+            s_.Solver_Set_Elliptic_Algorithm()
+    n = 0
+    for a_, b_ in itertools.permutations(schemes, 2):
+        with contextlib.redirect_stdout(io.StringIO()):
+            s_ = build()
+            setscheme(s_, a_)
+            s_.Solve()
+            s_.Save_Iter()
+            pt = s_.problemType
+            u0 = np.asarray(s_._Get_u_n(pt)).copy()
+            setscheme(s_, b_)
+            s_.Solve()
+            s_.Save_Iter()
+            try:
+                s_.Set_Iter(0)
+            except Exception as ex:
+                raise Refuted(f"{sim}: an iteration saved under the {a_} scheme cannot be restored after switching to the {b_} scheme: Set_Iter(0) raises {type(ex).__name__}: {ex}",
+                              cex=dict(simulation=sim, history=[f"scheme {a_}", "Solve", "Save_Iter", f"scheme {b_}", "Solve", "Save_Iter", "Set_Iter(0)"]), signature=f"restore_scheme:{sim}:raises",
+                              replay=dict(confirmed=True, error=str(ex)[:200]))
+        n += 1
+        if not np.array_equal(np.asarray(s_._Get_u_n(pt)), u0):
+            raise Refuted(f"{sim}: after scheme {a_} -> {b_}, Set_Iter(0) does not bring back the unknown saved at iteration 0", signature=f"restore_scheme:{sim}:u", replay=dict(confirmed=True))
+    return Verdict(DISCHARGED, backend="native run", sub=n)
+
+
 def build(tier, seed):
     obs = []
     obs.append(Ob("C14.I_flag.mesh", ob_mesh_notify, (), "E", (f"{MESH}::Mesh.*",), clause="every Mesh method that re-assigns group coordinates notifies the observers"))
@@ -963,6 +1015,9 @@ def build(tier, seed):
             obs.append(Ob(f"C14.history.model.{law}.{dim}d", ob_model_history, (law, dim), "X", ("EasyFEA/Models/Elastic/_laws.py::_Elastic.Get_sqrt_C_S", "EasyFEA/Models/Elastic/_laws.py::_Elastic.C[setter]", f"EasyFEA/Models/Elastic/_laws.py::{law}"),
                           bound="every sequence of length <= 3 over reads, 3-5 parameter assignments, Set_C (with / without compliance update) and the public C setter",
                           clause="C, S and the cached matrix square roots (C^1/2, C^-1/2) equal those of a model constructed in the final configuration", timeout=600))
+    for sim in ("WeakForms", "Elastic", "Beam", "HyperElastic"):
+        obs.append(Ob(f"C14.history.restore.scheme.{sim}", ob_restore_after_scheme_switch, (sim,), "X", (f"EasyFEA/Simulations/_{sim.lower()}.py::{sim}.Set_Iter", f"EasyFEA/Simulations/_{sim.lower()}.py::{sim}.Save_Iter"),
+                      bound="one small mesh, every ordered pair of time schemes the simulation accepts", clause="switching the time scheme then restoring an earlier iteration works and brings back the stored unknown", timeout=300))
     obs.append(Ob("C14.history.mesh.inDim", ob_mesh_indim, (), "X", (f"{MESH}::Mesh.inDim",), bound="one patch", clause="inDim after an out-of-plane rotation == a fresh mesh's"))
     obs.append(Ob("C14.I_cache.key", ob_cache_key, (), "B", ("EasyFEA/Utilities/_cache.py::cache_computed_values", "EasyFEA/Utilities/_cache.py::clear_cached_computed_values"),
                   bound="7 call spellings x all ordered pairs x 2 receivers x 2 signatures", clause="the memoised wrapper returns what the function returns, for every call sequence; clear drops the memo"))
